@@ -10,14 +10,15 @@ from collections import OrderedDict
 from common import hexs, unhexs, use_repo
 
 PROPERTY = 'C07'
-LEAN_MODULES = ['YatimlModel.Props.C07', 'YatimlModel.Props.C07Parse', 'YatimlModel.Props.C07EndToEnd']
+LEAN_MODULES = ['YatimlModel.Props.C07', 'YatimlModel.Props.C07Parse', 'YatimlModel.Props.C07EndToEnd',
+                'YatimlModel.Props.C07Ascii']
 THEOREMS = ['YatimlModel.C07.' + t for t in [
     'C07_machine_refines_renderer', 'C07_emit_is_canonical_json', 'C07_same_data_all_indents',
     'C07_compact', 'C07_indent_shape', 'C07_alias_raises', 'C07_dumps_ascii',
     'C07_dumps_valid_string', 'C07_numbers_are_json', 'C07_string_token_denotes',
     'C07_rendered_text_parses', 'C07_emitted_text_is_json', 'C07_same_value_all_options',
     'C07_number_texts_wf', 'C07_non_ascii_unescaped', 'C07_unicode_mode_keeps_non_ascii',
-    'C07_dumps_json_is_projection', 'C07_int_texts_are_numbers']]
+    'C07_dumps_json_is_projection', 'C07_int_texts_are_numbers', 'C07_default_output_is_ascii']]
 RULE = ('(a) every (top-of-stack state x event kind x indent x current indent) step of the real '
         'Dumper.emit_json against the model step (exhaustive over that finite domain); (b) every '
         'plain-data tree shape up to a node bound x indent in {None,0..8} x ensure_ascii, plus '
